@@ -71,12 +71,23 @@ func runOvertaken(r *lib.Run, idx int) {
 			b = head - 1 - uint64(rng.IntN(int(min(head, 3))))
 		}
 		byHash := rng.IntN(2) == 0
+		// every fourth trial the overtaken reader is a HEAD reader (its answers are not judged: it
+		// legitimately describes the old or the new head); every sixth trial starts on a freshly
+		// restarted node. What matters there is that the node is not confused afterwards.
+		headReader := store && t%4 == 3
+		if t%6 == 5 {
+			if err := node.Restart(false); err != nil {
+				r.Violation(backend+":restart-fails", idx, err.Error(), nil)
+				return
+			}
+			r.Count("overtaken.trials_on_a_freshly_restarted_node", 1)
+		}
 		k := 1 + rng.IntN([]int{4, 30, 250}[rng.IntN(3)])
 		what := "store-overtakes-reader"
 		if !store {
 			what = "revert-overtakes-reader"
 		}
-		s := step{fmt.Sprintf("%s(block %d, by hash %v) after read", what, b, byHash), k}
+		s := step{fmt.Sprintf("%s(block %d, by hash %v, head reader %v) after read", what, b, byHash, headReader), k}
 		c := &checker{r: r, idx: idx, backend: backend, steps: append(append([]step{}, done...), s), ps: ps,
 			builder: map[bool]string{false: "legacy", true: "new"}[builderNew]}
 		if !newState {
@@ -92,6 +103,19 @@ func runOvertaken(r *lib.Run, idx int) {
 			var sr core.StateReader
 			var closer func() error
 			var err error
+			if headReader {
+				sr, closer, err = node.BC.HeadState()
+				if err != nil {
+					c.fail("unexpected-error", "overtaken-head", b, head, "open", nil, nil, "state reader", err.Error())
+					return
+				}
+				for i := range ps.contracts {
+					_, _ = sr.ContractNonce(&ps.contracts[i])
+					c.reads++
+				}
+				closer()
+				return
+			}
 			if byHash {
 				sr, closer, err = node.BC.StateAtBlockHash(full.Blocks[b].Block.Hash)
 			} else {
@@ -135,8 +159,11 @@ func runOvertaken(r *lib.Run, idx int) {
 		r.Eval(c.reads)
 		r.Count("overtaken.point_reads", c.reads)
 		if werr != nil {
-			// the write's own outcome belongs to C02 / C04; this history cannot continue
-			r.Count("overtaken.write_failed(not judged here)", 1)
+			// a valid block refused / a revert refused: the overlapping reader (of this or an earlier
+			// trial) has confused the node
+			r.Violation(fmt.Sprintf("%s:overtaken:%s-refused", backend, map[bool]string{true: "valid-block", false: "revert"}[store]), idx,
+				fmt.Sprintf("%s node: %s of block %d refused after readers overlapped earlier writes: %v", backend, map[bool]string{true: "store", false: "revert"}[store], height-1+map[bool]int{true: 1, false: 0}[store], werr),
+				map[string]any{"steps": append(append([]step{}, done...), s), "error": werr.Error()})
 			return
 		}
 		if store {
